@@ -28,6 +28,10 @@ type C14Case struct {
 	// spare capacity, maps with entries, allocated pointers) when the document
 	// arrives; the result is then only checked for safety, not for its value
 	Pre *gomodel.GoVal `json:"pre,omitempty"`
+	// Repeat: the document is delivered (and abandoned / failed) this many more
+	// times, each followed by Reset + SetTarget(new variable), before the probes:
+	// whatever a Reset leaves behind accumulates
+	Repeat int `json:"repeat,omitempty"`
 }
 
 const sentinelWord = 0xA5A5F00DCAFE5A5A
@@ -171,6 +175,27 @@ func checkC14(ci any, info *CaseInfo) string {
 				}
 			default:
 				info.Class("lossy_conversion_not_compared")
+			}
+		}
+	}
+
+	if c.Repeat > 0 {
+		info.Class("repeated_cycles")
+		for i := 0; i < c.Repeat; i++ {
+			_, tn := guardedTarget(typ)
+			ro := guard(func() error {
+				u.Reset()
+				return u.SetTarget(tn.Interface())
+			})
+			if ro.Panicked() || ro.Err != nil {
+				return fmt.Sprintf("Reset+SetTarget(same type) fails in cycle %d of %d: %v\n  %s", i+1, c.Repeat, ro, desc)
+			}
+			ro = guard(func() error { _, err := model.ApplyScribble(evs, u); return err })
+			if ro.Panicked() {
+				return fmt.Sprintf("unfolding panics in cycle %d of %d: %v\n%s\n  %s", i+1, c.Repeat, ro.Panic, ro.Stack, desc)
+			}
+			if ro.Class() != o.Class() {
+				return fmt.Sprintf("the same document on the same unfolder ends with %v in cycle %d of %d and with %v the first time\n  %s", ro, i+1, c.Repeat, o, desc)
 			}
 		}
 	}
@@ -389,6 +414,9 @@ func drawC14(t *rapid.T) any {
 	if rapid.IntRange(0, 2).Draw(t, "abandon") == 2 && len(c.Evs) > 0 {
 		c.Abandon = rapid.IntRange(0, len(c.Evs)-1).Draw(t, "abandonat")
 	}
+	if rapid.IntRange(0, 7).Draw(t, "repeat") == 0 {
+		c.Repeat = rapid.SampledFrom([]int{1, 3, 40, 400, 1100}).Draw(t, "repeatn")
+	}
 	if typ, err := gomodel.Build(&c.Type); err == nil && rapid.IntRange(0, 3).Draw(t, "pre") == 0 {
 		gv := gomodel.DrawValue(t, typ, gomodel.ValCfg{Budget: 20})
 		c.Pre = &gv
@@ -459,7 +487,7 @@ func init() {
 	register(&Property{
 		ID:            "C14",
 		Enum:          enumC14,
-		Rule:          "(stream, target type) pairs: (i) drawn independently (mostly mismatching), (ii) a matching perturbed stream (C13 renderer) with one subtree replaced by another random value at a drawn position and depth (scalar<->array<->object, key where none is expected, wrong element kinds, typed containers), (iii) matching streams whose container start announces 2^16..2^63-1 elements that are not delivered; 1 in 4 targets already hold a generated value (non-nil slices with spare capacity, maps with entries, allocated pointers; safety oracles only); optionally abandoned after a drawn event index; then Reset + SetTarget(new variable of the same type) + a matching perturbed document of a second value (members omitted), then Reset + SetTarget + a fixed probe document of a fixed type. Deterministic part: every scalar event kind and the wrong container kind where a struct, slice, map, pointer-to-struct, slice-of-struct or map-of-struct is expected, as target, map value, slice element, struct field and pointer target. Oracle: no panic; TotalAlloc <= 256KiB + 512 B/event + 8 B/string byte; the target sits between sentinel words that must stay intact; a success must equal the reference assignment model on the same stream (compared when every number fits); after each Reset+SetTarget the result, outcome and stack depths equal a new unfolder's on the same document. non-trivial = an error at depth >= 1 or abandonment inside a nested container; distinct by case hash. The thorough tier repeats the search with the -race build (checkptr)",
+		Rule:          "(stream, target type) pairs: (i) drawn independently (mostly mismatching), (ii) a matching perturbed stream (C13 renderer) with one subtree replaced by another random value at a drawn position and depth (scalar<->array<->object, key where none is expected, wrong element kinds, typed containers), (iii) matching streams whose container start announces 2^16..2^63-1 elements that are not delivered; 1 in 4 targets already hold a generated value (non-nil slices with spare capacity, maps with entries, allocated pointers; safety oracles only); optionally abandoned after a drawn event index; 1 in 8 cases repeat the (abandoned or failing) document 1..1100 more times, each time after Reset + SetTarget, with the same outcome required; then Reset + SetTarget(new variable of the same type) + a matching perturbed document of a second value (members omitted), then Reset + SetTarget + a fixed probe document of a fixed type. Deterministic part: every scalar event kind and the wrong container kind where a struct, slice, map, pointer-to-struct, slice-of-struct or map-of-struct is expected, as target, map value, slice element, struct field and pointer target. Oracle: no panic; TotalAlloc <= 256KiB + 512 B/event + 8 B/string byte; the target sits between sentinel words that must stay intact; a success must equal the reference assignment model on the same stream (compared when every number fits); after each Reset+SetTarget the result, outcome and stack depths equal a new unfolder's on the same document. non-trivial = an error at depth >= 1 or abandonment inside a nested container; distinct by case hash. The thorough tier repeats the search with the -race build (checkptr)",
 		New:           func() any { return &C14Case{} },
 		Draw:          drawC14,
 		Check:         checkC14,
